@@ -22,6 +22,9 @@ type WorkerPool struct {
 	// Queue is the queue of tasks that are waiting to be executed.
 	Queue *syncutils.Stack[*Task]
 
+	// submitsInFlight is the number of Submit calls that are currently being processed.
+	submitsInFlight *syncutils.Counter
+
 	// ShutdownComplete is a WaitGroup that is used to wait for the WorkerPool to shutdown.
 	ShutdownComplete sync.WaitGroup
 
@@ -53,6 +56,7 @@ func New(name string, opts ...options.Option[WorkerPool]) *WorkerPool {
 		Name:                name,
 		PendingTasksCounter: syncutils.NewCounter(),
 		Queue:               syncutils.NewStack[*Task](),
+		submitsInFlight:     syncutils.NewCounter(),
 		workerCount:         2 * runtime.NumCPU(),
 
 		optCancelPendingTasksOnShutdown: false,
@@ -81,6 +85,12 @@ func (w *WorkerPool) Start() *WorkerPool {
 
 // Submit submits a new task to the WorkerPool.
 func (w *WorkerPool) Submit(workerFunc func(), optStackTrace ...string) {
+	// announce the call before checking if the WorkerPool is running: the dispatcher does not exit before all Submit
+	// calls that saw a running WorkerPool have queued their task (otherwise the task would be counted as pending but
+	// never be executed)
+	w.submitsInFlight.Increase()
+	defer w.submitsInFlight.Decrease()
+
 	if !w.IsRunning() {
 		if w.optPanicOnSubmitAfterShutdown {
 			panic(fmt.Sprintf("worker pool '%s' is not running", w.Name))
@@ -187,9 +197,17 @@ func (w *WorkerPool) startDispatcher() {
 
 // dispatcher is the dispatcher that dispatches tasks to the workers.
 func (w *WorkerPool) dispatcher() {
-	for w.IsRunning() || w.Queue.Size() > 0 {
-		if task, success := w.Queue.PopOrWait(w.IsRunning); success {
-			w.dispatcherChan <- task
+	for {
+		for w.IsRunning() || w.Queue.Size() > 0 {
+			if task, success := w.Queue.PopOrWait(w.IsRunning); success {
+				w.dispatcherChan <- task
+			}
+		}
+
+		// Submit calls that passed the running check before the shutdown might still queue their task
+		w.submitsInFlight.WaitIsZero()
+		if w.Queue.Size() == 0 {
+			break
 		}
 	}
 
